@@ -251,4 +251,17 @@ def run(repo, tier):
         (PPM + 'IterativePSFPhotometry.__call__', 'stmt', "new_tbl['group_id'] += np.max(phot_tbl['group_id'])", 'group ids continue after the largest group id'),
     ])
     run_keypair(repo, res, MODS)
+    apply_specs(repo, res, [
+        (PPM + 'PSFPhotometry._get_invalid_positions', 'stmt', 'positions = np.column_stack((y, x))',
+         'positions stacked as (y, x) to be compared with (ny, nx) shapes'),
+        (PPM + 'PSFPhotometry._define_fit_data', 'stmt', "local_bkg = row['local_bkg']", 'the local background of EACH source (row) is subtracted from its own cutout'),
+    ])
+    ic = repo.get_function(PPM + 'IterativePSFPhotometry.__call__')
+    apps = [c_ for c_ in ast.walk(ic.node) if isinstance(c_, ast.Call) and unparse(c_.func, 0) == 'self.fit_results.append']
+    okd = len(apps) >= 2 and all(nf(c_.args[0]) == nf_text('deepcopy(self._psfphot)') for c_ in apps)
+    res.oblige('SPEC', 'IterativePSFPhotometry stores a deep copy of the worker after every iteration', okd, nontrivial=True)
+    if not okd:
+        res.add(Finding('SPEC', ic.fullname, 'fit_results snapshots', ic.loc,
+                        'IterativePSFPhotometry.__call__ must append deepcopy(self._psfphot) after every iteration: the live worker is '
+                        'overwritten by the next iteration, so all entries would alias the last one', {}))
     return res
